@@ -171,6 +171,26 @@ def cxx_case(chk, i):
                     return any(ep_tainted(x, depth + 1) for x in (set(c.needs_complete) | set(c.bases)) if x != cn)
                 if owners and all(o_.startswith("template specialization: ") or ep_tainted(o_) for o_ in owners):
                     sig = "c02.explicit-padding-empty-class-or-template"
+            if sig is None and owners:
+                # owners explained by DIFFERENT recorded findings in one header (an empty class under --explicit-padding next to a class with
+                # re-ordered bases): every owner must be explained by one of them; the verdict carries the signature that explains most
+                def sigs_of(o_):
+                    r_ = []
+                    if owner_ok(o_):
+                        r_.append("c02.cxx-base-tail-padding-reuse")
+                    if not o_.startswith("template specialization: ") and reorder_tainted(o_):
+                        r_.append("c02.cxx-primary-base-not-first")
+                    if oname == "explicit-padding" and (o_.startswith("template specialization: ") or ep_tainted(o_)):
+                        r_.append("c02.explicit-padding-empty-class-or-template")
+                    return r_
+                per = {o_: sigs_of(o_) for o_ in owners}
+                if all(per.values()):
+                    cnt = {}
+                    for v_ in per.values():
+                        for x_ in v_:
+                            cnt[x_] = cnt.get(x_, 0) + 1
+                    sig = sorted(cnt, key=lambda x_: (-cnt[x_], x_))[0]
+                    obs["cxx_cases_with_several_recorded_findings"] = 1
             out.append(Verdict(VIOLATED, cname, "layout assertions (clang's numbers) fail to evaluate against the Rust layout: %s" % failing[:8], files=files, obs=obs, signature=sig))
         elif rcr != 0:
             out.append(Verdict(HELD, cname, obs=dict(obs, cxx_compile_errors_deferred_to_C01=1)))
